@@ -572,7 +572,7 @@ func (g *wgen) genProv(last bool) {
 			g.c.Provs = append(g.c.Provs, p)
 			g.addUnit(e, p.Params, prov)
 			g.addUnit(WElem{Kind: "bind", Iface: it, Impl: res}, []TypeID{res}, []TypeID{it})
-			if g.want("bind-two-interfaces", "bind2", 25) {
+			if g.want("bind-two-interfaces", "bind2", 50) {
 				// the same implementation is bound to a second interface in the same list
 				it2 := g.addType(Type{Kind: KIface, Name: g.name("I"), Impl: res})
 				g.c.Types[int(it2)].Method = "VH" + g.c.T(it2).Name
@@ -583,6 +583,7 @@ func (g *wgen) genProv(last bool) {
 					g.c.Types[int(it3)].Method = "VH" + g.c.T(it3).Name
 					g.addUnit(WElem{Kind: "bind", Iface: it3, Impl: res}, []TypeID{res}, []TypeID{it3})
 					g.w.AddFeature("bind-three-interfaces")
+					g.twinWant = append(g.twinWant, it2) // the requested type's provider takes the middle interface
 				}
 			}
 			g.decoy(p)
